@@ -826,7 +826,8 @@ pub fn gen_case(seed: u64, id: u64) -> Case {
                     // a number is printed the way string() converts it (XPath 1.0 section 4.2)
                     let (e, v) = *rng.pick(&[
                         ("1 div 0", "Infinity"), ("-1 div 0", "-Infinity"), ("0 div 0", "NaN"), ("1 div 2", "0.5"), ("3", "3"), ("2 * 3", "6"),
-                        ("-0", "0"), ("7 mod 4", "3"), ("1.50", "1.5"), ("-(1 div 0)", "-Infinity"), ("number('x')", "NaN"), ("0.5 + 0.25", "0.75"),
+                        ("-0", "0"), ("7 mod 4", "3"), ("1.50", "1.5"), ("-(1 div 0)", "-Infinity"), ("number('x')", "NaN"), ("0.5 + 0.25", "0.75"), ("ceiling(-0.5)", "0"), ("round(-0.5)", "0"), ("round(-1.5)", "-1"),
+                        ("round(2.5)", "3"), ("0 * -1", "0"), ("round(-0.2)", "0"), ("floor(-0.5)", "-1"),
                     ]);
                     expr = e.to_string();
                     scalar = Some(v.to_string());
@@ -1074,7 +1075,7 @@ pub fn gen_case(seed: u64, id: u64) -> Case {
                     0 => G::Comment(g.word(0, 3)),
                     1 => G::PI("t".into(), g.word(0, 2).trim_start().to_string()),
                     _ => {
-                        let (s, c) = *g.rng.pick(&[("&#38;", "&"), ("&#x26;", "&"), ("&#x3C;", "<"), ("&#0060;", "<"), ("&#233;", "é"), ("&#xE9;", "é"), ("&#10;", "\n"), ("&#9;", "\t"), ("&#x3c;", "<"), ("&#038;", "&")]);
+                        let (s, c) = *g.rng.pick(&[("&#38;", "&"), ("&#x26;", "&"), ("&#x3C;", "<"), ("&#0060;", "<"), ("&#233;", "é"), ("&#xE9;", "é"), ("&#10;", "\n"), ("&#9;", "\t"), ("&#x3c;", "<"), ("&#038;", "&"), ("&#1;", "\u{1}"), ("&#xFFFE;", "\u{FFFE}")]);
                         G::CharRef(s.to_string(), c.to_string())
                     }
                 },
@@ -1361,6 +1362,18 @@ pub fn gen_case(seed: u64, id: u64) -> Case {
                 gate = "xe_value_attribute_local_collision".into();
             }
         }
+    }
+    // a character reference to something that is not an XML character makes --value unusable (wherever it goes,
+    // unless nothing is selected at all)
+    if tool == "xe"
+        && value_has(&vkids, |g| matches!(g, G::CharRef(_, c) if c == "\u{1}" || c == "\u{FFFE}"))
+        && expect_kind.starts_with("canon")
+        && (!paths.is_empty() || doc_target)
+        && !text_runs
+    {
+        expect_kind = "fail".into();
+        expect = String::new();
+        what = "xe: character reference to a non-XML character in --value".into();
     }
     // regions of listed findings that do not depend on where the value goes
     if tool == "xe"
